@@ -19,6 +19,8 @@ open Pory.C11b (leaf_auto epv_auto autoFinish_ok leafFinish autoE operandName Po
 
 def σlit (s : PState) (v : Tok) : String := substC s.constants v.lit
 
+theorem σlit_eq (s : PState) : σlit s = fun t => substC s.constants t.lit := rfl
+
 theorem bfl {a b : TT} (h : a ≠ b) : (a == b) = false := beq_eq_false_iff_ne.mpr h
 theorem btr {a b : TT} (h : a = b) : (a == b) = true := beq_iff_eq.mpr h
 
@@ -328,6 +330,7 @@ theorem kleaf_run (env : Env) (sn : String) (f : Nat) (s : PState) (pre : Tok) (
   simp only [List.cons_append, List.nil_append] at hcol
   have hpt : ∀ (x : Tok) (tl : List Tok), (peekTokenIsAutoVar env).run (st s (x :: kw :: tl)) =
       .ok (false, st s (x :: kw :: tl)) := fun x tl => run_ptia_kw env _ (by simpa using hkI)
+  have ho' : o.type ≠ .RPAREN := (hops o (by simp)).1
   cases nt with
   | some t =>
     have ht : t.type = .NOT := by simpa using hnt
@@ -335,37 +338,38 @@ theorem kleaf_run (env : Env) (sn : String) (f : Nat) (s : PState) (pre : Tok) (
     have hp : post = .none := by
       cases post <;> simp [KLeaf.postOk] at hpost ⊢
     subst hp
-    unfold parseLeafBooleanExpression
-    simp only [KLeaf.print, KLeaf.postToks, Option.toList, List.cons_append, List.nil_append, List.append_assoc]
-    rsimp [btr ht, hpt, hchk, Bool.not_false,
-      btr hlp, ho, hcol, List.append_nil]
-    rcases hkw with (h | h) | h <;> simp [h, KLeaf.tree, KLeaf.operand, σlit]
+    rcases hkw with (h | h) | h <;>
+      simp [parseLeafBooleanExpression, KLeaf.print, KLeaf.postToks, hpt, ht, h, hlp, ho', hcol, KLeaf.tree,
+        KLeaf.operand, σlit_eq]
   | none =>
-    unfold parseLeafBooleanExpression
-    simp only [KLeaf.print, Option.toList, List.cons_append, List.nil_append, List.append_assoc]
-    rsimp [hkN, hpt, hchk, Bool.not_false,
-      btr hlp, ho, hcol]
     cases post with
     | none =>
-      simp only [KLeaf.postToks, List.nil_append]
       rcases hkw with (h | h) | h
-      · simp [h, flagOp_bare _ _ _ _ hfo, KLeaf.tree, KLeaf.operand, σlit]
-      · simp [h, flagOp_bare _ _ _ _ hfo, KLeaf.tree, KLeaf.operand, σlit]
-      · simp [h, varOp_bare _ _ _ _ hfo, KLeaf.tree, KLeaf.operand, σlit]
+      · simp [parseLeafBooleanExpression, KLeaf.print, KLeaf.postToks, hpt, h, hlp, ho', hcol, KLeaf.tree,
+          KLeaf.operand, σlit_eq, flagOp_bare _ _ _ _ hfo]
+      · simp [parseLeafBooleanExpression, KLeaf.print, KLeaf.postToks, hpt, h, hlp, ho', hcol, KLeaf.tree,
+          KLeaf.operand, σlit_eq, flagOp_bare _ _ _ _ hfo]
+      · simp [parseLeafBooleanExpression, KLeaf.print, KLeaf.postToks, hpt, h, hlp, ho', hcol, KLeaf.tree,
+          KLeaf.operand, σlit_eq, varOp_bare _ _ _ _ hfo]
     | flag a b =>
       simp only [KLeaf.postOk, Bool.and_eq_true, Bool.or_eq_true, beq_iff_eq, Option.isSome_none,
         Bool.not_false, true_and] at hpost
       obtain ⟨⟨hk2, ha⟩, hb⟩ := hpost
-      simp only [KLeaf.postToks, List.cons_append, List.nil_append]
       rcases hk2 with h | h
-      · simp [h, flagOp_gen _ _ _ a b rest ha hb, KLeaf.tree, KLeaf.operand, σlit]
-      · simp [h, flagOp_gen _ _ _ a b rest ha hb, KLeaf.tree, KLeaf.operand, σlit]
+      · simp [parseLeafBooleanExpression, KLeaf.print, KLeaf.postToks, hpt, h, hlp, ho', hcol, KLeaf.tree,
+          KLeaf.operand, σlit_eq, flagOp_gen _ _ _ a b rest ha hb]
+      · simp [parseLeafBooleanExpression, KLeaf.print, KLeaf.postToks, hpt, h, hlp, ho', hcol, KLeaf.tree,
+          KLeaf.operand, σlit_eq, flagOp_gen _ _ _ a b rest ha hb]
     | var a v =>
       simp only [KLeaf.postOk, Bool.and_eq_true, beq_iff_eq, Option.isSome_none, Bool.not_false,
         true_and] at hpost
       obtain ⟨⟨hk2, ha⟩, hv⟩ := hpost
-      simp only [KLeaf.postToks, List.cons_append]
-      simp [hk2, varOp_gen _ f s a v rest ha hv hfo (by omega), KLeaf.tree, KLeaf.operand, σlit]
+      have hf' : v.need ≤ f := by
+        have h0 := hf
+        simp only at h0
+        omega
+      simp [parseLeafBooleanExpression, KLeaf.print, KLeaf.postToks, hpt, hk2, hlp, ho', hcol, KLeaf.tree,
+        KLeaf.operand, σlit_eq, varOp_gen _ f s a v rest ha hv hfo hf']
 
 /-! ### auto-var leaves with a general comparison value -/
 
